@@ -22,10 +22,10 @@ func init() {
 }
 
 func checkC17(c *Ctx) {
-	c.Rule("R17.1", "Write consumes everything (len(original), nil) and iterates writeLine to the empty suffix; writeLine returns nil or the strict suffix after the first newline", 6)
+	c.Rule("R17.1", "Write consumes everything (len(original), nil) and iterates writeLine to the empty suffix; writeLine returns nil or the strict suffix after the first newline", 4)
 	c.Rule("R17.2", "nothing is buffered or logged while the level is disabled", 2)
-	c.Rule("R17.3", "empty-line policy: flush(true) only from writeLine, flush(false) only from Sync, Close = Sync; flush logs iff allowed/non-empty and always resets", 6)
-	c.Rule("R17.4", "fast path only when nothing is buffered; otherwise append before flush", 3)
+	c.Rule("R17.3", "empty-line policy: flush(true) only from writeLine, flush(false) only from Sync, Close = Sync; flush logs iff allowed/non-empty and always resets", 4)
+	c.Rule("R17.4", "fast path only when nothing is buffered; otherwise append before flush", 2)
 	c.Rule("R17.5", "kept bytes are copies: no store of the caller's slice into the writer", 2)
 
 	wr := c.Method(ZapioPath, "Writer", "Write")
